@@ -61,7 +61,7 @@ def run(ctx):
                     dtw_ndim.distance(a, b, **kw)
                 elif route == "fast":
                     kwf = dict(kw)
-                    if dtwmon.valid_ub_domain(kw, r, c) and rng.random() < 0.3:
+                    if rng.random() < 0.3:
                         kwf["use_pruning"] = True
                     dtw_ndim.distance_fast(s1, s2, **kwf)
                 elif route == "flat":
@@ -100,7 +100,7 @@ def run(ctx):
         # matrices and paths (monitors of C04 / C05, labelled by this property through the run)
         kw2 = {k: v for k, v in kw.items() if k != "max_step"}
         kw4 = dict(kw)
-        if dtwmon.valid_ub_domain(kw, r, c) and rng.random() < 0.3:
+        if rng.random() < 0.3:
             kw4["use_pruning"] = True        # the multivariate bound inside the cost-matrix kernels
         with monitors.quiet():
             C04.one(ctx, dtw, dtw_cc, np, s1, s2, kw4, psi_neg=rng.random() < 0.5, keep=rng.random() < 0.3, nd=nd)
